@@ -162,8 +162,9 @@ class Remap(object):
     `mapping` maps a source rule id (or prefix ending in '.') to the id to record; unmapped rules are
     dropped (when only=True) or passed through."""
 
-    def __init__(self, R, mapping, only=True):
-        self.R, self.mapping, self.only = R, mapping, only
+    def __init__(self, R, mapping, only=True, keys=None):
+        """keys: optional tuple of key prefixes; instances with another key are not recorded"""
+        self.R, self.mapping, self.only, self.keys = R, mapping, only, keys
 
     def _m(self, rule):
         if rule in self.mapping:
@@ -177,6 +178,10 @@ class Remap(object):
         r = self._m(rule)
         if r is None:
             return True
+        if self.keys is not None:
+            key = k.get('key') or (a[2] if len(a) > 2 else '')
+            if not any(str(key).startswith(p) for p in self.keys):
+                return True
         return self.R.ob(r, *a, **k)
 
     def floor(self, rule, n, why=''):
